@@ -360,6 +360,62 @@ Section RunProofs.
     - reflexivity.
   Qed.
 
+  (* consecutive files: the next initial timestamp is the previous final one, or one second later *)
+  Fixpoint gaps_ok (prev : option N) (fs : list file) : Prop :=
+    match fs with
+    | [] => True
+    | f :: rest =>
+        match prev with None => True | Some p => p <= f_t0 f /\ f_t0 f <= p + 1 end /\
+        gaps_ok (Some (f_t1 f)) rest
+    end.
+
+  Lemma check_gaps_ok : forall m (fs : list file) prev, gaps_ok prev fs -> check_gaps m prev fs = Ok tt.
+  Proof.
+    induction fs as [|f fs IH]; intros prev H; [reflexivity|].
+    destruct H as [Hp Hrest]. cbn [check_gaps]. rewrite (IH _ Hrest).
+    destruct prev as [p|]; [|reflexivity].
+    unfold usub. destruct (p <=? f_t0 f) eqn:E; [|lia]. cbn [bind]. unfold guard.
+    destruct (f_t0 f - p <=? 1) eqn:E2; [reflexivity | lia].
+  Qed.
+
+  (* the positive direction: any command-line order of the files of one contiguous run is accepted
+     and gives the rows of the files taken in the order of their initial timestamps *)
+  Theorem run_rows_complete_lemma :
+    forall (sort : list (hdr file) -> list (hdr file)) m (args files : list file),
+    sorting sort -> args <> [] ->
+    Permutation files args -> StronglySorted lt_file files ->
+    (forall f g, In f args -> In g args -> f_run f = f_run g) ->
+    Forall (fun f => extension_try_from (f_ext f) <> None) args ->
+    gaps_ok None files ->
+    run_rows sort m args = Ok (scan_rows (flat_map (fun f => main_items (f_events f)) files)).
+  Proof.
+    intros sort m args files [Hp Hs] Hne Hperm Hsorted Hrun Hknown Hgaps.
+    destruct args as [|f0 args0] eqn:Eargs; [contradiction|]. rewrite <- Eargs in *.
+    assert (Hf0 : In f0 args) by (rewrite Eargs; now left).
+    set (hfiles := map hdr_of (map arg_of files)).
+    assert (Hhs : StronglySorted lt_t0 hfiles).
+    { unfold hfiles. clear - Hsorted. induction Hsorted as [|f l Hs IH Hall]; cbn [map]; constructor; [exact IH|].
+      rewrite Forall_forall in *. intros h Hh. rewrite map_map in Hh. apply in_map_iff in Hh.
+      destruct Hh as (g & <- & Hg). apply (Hall g Hg). }
+    assert (Hnd : NoDup (map a_t0 (map arg_of args))).
+    { eapply Permutation_NoDup; [apply Permutation_map, Permutation_map; exact Hperm|].
+      rewrite <- map_t0_hdr. apply strict_sorted_nodup. exact Hhs. }
+    assert (Hk : Forall known (map arg_of args)).
+    { rewrite Forall_forall in *. intros a Ha. apply in_map_iff in Ha. destruct Ha as (f & <- & Hf).
+      apply (Hknown f Hf). }
+    assert (Hr : one_run (f_run f0) (map arg_of args)).
+    { intros a Ha. apply in_map_iff in Ha. destruct Ha as (f & <- & Hf). apply (Hrun f f0 Hf Hf0). }
+    assert (Hne' : map arg_of args <> []) by (rewrite Eargs; discriminate).
+    destruct (accept_lemma sort Hp Hs (map arg_of args) (f_run f0) Hk Hne' Hr Hnd) as [Hok Hss].
+    assert (Heq : sort (map hdr_of (map arg_of args)) = hfiles).
+    { apply strict_sorted_perm_unique; try assumption.
+      eapply Permutation_trans; [apply Hp|]. unfold hfiles.
+      apply Permutation_map, Permutation_map, Permutation_sym. exact Hperm. }
+    unfold run_rows. rewrite Hok. cbn [bind snd]. rewrite Heq.
+    assert (Hpaths : map h_path hfiles = files) by (unfold hfiles; rewrite !map_map; apply map_id).
+    rewrite Hpaths, (check_gaps_ok m files None Hgaps). reflexivity.
+  Qed.
+
   (* refusals carry over to the binaries: no CSV rows at all *)
   Theorem run_rows_refusals_lemma :
     forall (sort : list (hdr file) -> list (hdr file)) m (args : list file),
